@@ -338,6 +338,7 @@ fn merge_edit_strategy() -> impl Strategy<Value = Edit> {
         1 => any::<u16>().prop_map(|folder| Edit::CompactFolder { folder }),
         2 => (prop_oneof![Just(0u16), any::<u16>()], any::<u16>()).prop_map(|(sec, folder)| Edit::MoveSecret { sec, folder }),
         1 => (any::<u16>(), "[a-z]{1,4}").prop_map(|(folder, word)| Edit::ChangeFolderPassword { folder, word }),
+        3 => (prop_oneof![Just(0u16), Just(40000u16), any::<u16>()], any::<bool>(), proptest::option::weighted(0.3, "[a-z]{1,3}")).prop_map(|(sec, on, tag)| Edit::SetFavorite { sec, on, tag }),
     ]
 }
 
